@@ -16,16 +16,24 @@
 (*            are kept for every later file                                                               *)
 (*   depc  -- lang/_language.py Language.get_dependency_builder: functools.lru_cache keyed by the PyDSDL    *)
 (*            type, whose __eq__/__hash__ see name + version + bit-length set only (EqKey below)           *)
+(*   unch  -- lang/_common.py TokenEncoder.strop: a memo per encoder (= per Language = per LanguageContext).  *)
+(*            Stropping is token-type specific ("path" applies fewer rules than "any"), and the path tokens    *)
+(*            (namespace components, file stems) of EVERY type of a run are stropped while the namespace tree   *)
+(*            is built, before any file is rendered.  A memo that notes "came back unchanged" by spelling alone  *)
+(*            lets the file stem of a sibling decide how an equally spelled field of another type is emitted.    *)
 (* Files are sequences of abstract lines:                                                                 *)
 (*   <<"E">> empty line, <<"T",t>> the type's own text, <<"L",k>> unique name from a literal base token,   *)
 (*   <<"D",k>> unique name from a computed base token, <<"M",a,b>> imported module-level name a and a name  *)
-(*   b made by an imported macro, <<"I",u>> include of dependency u, <<"S">> include of the serialization   *)
+(*   b made by an imported macro, <<"I",u>> include of dependency u, <<"N",w,c>> a field whose name is spelled  *)
+(*   w, emitted stropped (c) or as it is, <<"S">> include of the serialization                              *)
 (*   support (absent with omit_serialization_support).                                                     *)
 (* One action per critical step of DSDLCodeGenerator._generate_type/_generate_code:                        *)
 (*   StartRun (build_namespace_tree + generator construction or reuse), Compile (env.get_template),         *)
 (*   Render (UniqueNameGenerator.reset + template.generate), Post (line post-processors + write).          *)
 (* The four boolean constants select, per mechanism, the behaviour that satisfies the property (TRUE) or    *)
 (* the behaviour found in the pinned tree (FALSE); TLC proves I => P for all-TRUE and refutes each FALSE.   *)
+(* FullStropKey = FALSE is not a behaviour of the pinned tree: it is the design flaw "memo keyed by spelling   *)
+(* only", kept as a negative control whose violating histories are replayed against the real code.            *)
 EXTENDS GenSiblingsP, TLC, Json
 
 CONSTANTS NTypes,          \* types are 1..NTypes (3 or 4)
@@ -38,16 +46,18 @@ CONSTANTS NTypes,          \* types are 1..NTypes (3 or 4)
           ResetLimiter,    \* TRUE: the limiter starts every file with count 0
           IdentityDepKey,  \* TRUE: the dependency memo is keyed by what the type really is (or absent)
           VolatileUniq,    \* TRUE: to_template_unique_name is never constant-folded
-          FreshModule      \* TRUE: imported template modules are evaluated for every file
+          FreshModule,     \* TRUE: imported template modules are evaluated for every file
+          Words,           \* spellings: 1 = clean as "path" but reserved as "any", 2 = plain, 3 = keyword (both)
+          FullStropKey     \* TRUE: the stropping memo is keyed by (token, token type) (or absent)
 
-VARIABLES shape, limit,    \* scenario parameters (chosen in Init)
-          uniq, lim, tplc, modv, depc,
+VARIABLES shape, limit, word,  \* scenario parameters (chosen in Init)
+          uniq, lim, tplc, modv, depc, unch,
           run, last, nruns, pc, cur, raw,
           memo, ok,        \* P-layer memo and verdict
           hist             \* history (for case emission only; hidden by VIEW in exhaustive configs)
 
-vars == <<shape, limit, uniq, lim, tplc, modv, depc, run, last, nruns, pc, cur, raw, memo, ok, hist>>
-View == <<shape, limit, uniq, lim, tplc, modv, depc, run, last, nruns, pc, cur, raw, memo, ok>>
+vars == <<shape, limit, word, uniq, lim, tplc, modv, depc, unch, run, last, nruns, pc, cur, raw, memo, ok, hist>>
+View == <<shape, limit, word, uniq, lim, tplc, modv, depc, unch, run, last, nruns, pc, cur, raw, memo, ok>>
 
 Types == 1..NTypes
 
@@ -68,13 +78,19 @@ Closed(d) == {S \in SUBSET Types : S # {} /\ \A t \in S : Deps(d)[t] \subseteq S
 Orders(S) == {f \in [1..Cardinality(S) -> S] : \A i, j \in 1..Cardinality(S) : f[i] = f[j] => i = j}
 
 (* ---- template shapes ----                                                                              *)
-Shape(le, tr, li, dy, mo, in) == [lead |-> le, trail |-> tr, lit |-> li, dyn |-> dy, mod |-> mo, inc |-> in]
-ShapesLimiter == {Shape(le, tr, 0, 0, FALSE, FALSE) : le \in 0..2, tr \in 0..2}
-ShapesUniq    == {Shape(0, 0, li, dy, mo, FALSE) : li \in 0..2, dy \in 0..1, mo \in BOOLEAN}
-ShapesDeps    == {Shape(0, 0, 0, 0, FALSE, TRUE)}
-ShapesMixed   == {Shape(le, tr, li, 1, mo, in) : le \in {0, 1}, tr \in {0, 1}, li \in {0, 1}, mo \in BOOLEAN, in \in BOOLEAN}
-ShapesEmit    == {Shape(le, le, 1, 1, mo, in) : le \in {0, 2}, mo \in BOOLEAN, in \in BOOLEAN}
-ShapesEmitQ   == {Shape(2, 2, 1, 1, TRUE, TRUE), Shape(0, 2, 1, 1, FALSE, TRUE), Shape(1, 1, 2, 1, TRUE, FALSE)}
+Shape(le, tr, li, dy, mo, in, na) == [lead |-> le, trail |-> tr, lit |-> li, dyn |-> dy, mod |-> mo, inc |-> in, nam |-> na]
+ShapesLimiter == {Shape(le, tr, 0, 0, FALSE, FALSE, FALSE) : le \in 0..2, tr \in 0..2}
+ShapesUniq    == {Shape(0, 0, li, dy, mo, FALSE, FALSE) : li \in 0..2, dy \in 0..1, mo \in BOOLEAN}
+ShapesDeps    == {Shape(0, 0, 0, 0, FALSE, TRUE, FALSE)}
+ShapesNames   == {Shape(0, 0, 0, 0, FALSE, in, TRUE) : in \in BOOLEAN}
+ShapesMixed   == {Shape(le, tr, li, 1, mo, in, FALSE) : le \in {0, 1}, tr \in {0, 1}, li \in {0, 1}, mo \in BOOLEAN, in \in BOOLEAN}
+ShapesEmit    == {Shape(le, le, 1, 1, mo, in, in) : le \in {0, 2}, mo \in BOOLEAN, in \in BOOLEAN}
+ShapesEmitQ   == {Shape(2, 2, 1, 1, TRUE, TRUE, TRUE), Shape(0, 2, 1, 1, FALSE, TRUE, FALSE), Shape(1, 1, 2, 1, TRUE, FALSE, TRUE)}
+
+(* ---- names: type 1 has a field spelled `word`; the file stem (a "path" token) of type 2 -- which type 1   *)
+(* does not refer to -- has the same spelling.  Changed(w, kind): does stropping alter the token?            *)
+Changed(w, kind) == (w = 3) \/ (w = 1 /\ kind = "any")
+HasStem(S) == 2 \in S
 
 (* ---- the P key of a generated file: shape and limit are fixed per scenario, hence implicit ----          *)
 PKey(d, t, omit) == <<t, Refs(d, t), omit>>
@@ -98,8 +114,8 @@ NoDeps == [k \in {} |-> {}]
 Idle == [d |-> 0, ord |-> <<>>, omit |-> FALSE]
 
 Init ==
-    /\ shape \in Shapes /\ limit \in Limits
-    /\ uniq = NoUniq /\ lim = 0 /\ tplc = NoTpl /\ modv = 0 /\ depc = NoDeps
+    /\ shape \in Shapes /\ limit \in Limits /\ word \in Words
+    /\ uniq = NoUniq /\ lim = 0 /\ tplc = NoTpl /\ modv = 0 /\ depc = NoDeps /\ unch = {}
     /\ run = Idle /\ last = Idle /\ nruns = 0 /\ pc = "idle" /\ cur = 0 /\ raw = <<>>
     /\ memo = EmptyMemo /\ ok = TRUE /\ hist = <<>>
 
@@ -113,12 +129,17 @@ StartRun(d, ord, mode, omit) ==
     /\ IF mode = "gen" THEN UNCHANGED <<lim, tplc, modv>>
        ELSE lim' = 0 /\ tplc' = NoTpl /\ modv' = 0               \* new pp objects, new Jinja environment
     /\ depc' = IF mode \in {"gen", "lctx"} THEN depc ELSE NoDeps  \* the memo lives in the Language object
+    /\ LET u0  == IF mode \in {"gen", "lctx"} THEN unch ELSE {}  \* so does the TokenEncoder
+           \* build_namespace_tree strops the path tokens of every listed type (a reused generator keeps its tree)
+           req == mode # "gen" /\ HasStem({ord[i] : i \in 1..Len(ord)})
+           res == IF ~FullStropKey /\ word \in u0 THEN FALSE ELSE Changed(word, "path")
+       IN unch' = IF req /\ ~FullStropKey /\ ~res THEN u0 \cup {word} ELSE u0
     /\ run' = [d |-> d, ord |-> ord, omit |-> omit]
     /\ last' = run'
     /\ nruns' = nruns + 1
     /\ pc' = "compile" /\ cur' = ord[1]
     /\ hist' = Append(hist, [d |-> d, ord |-> ord, mode |-> mode, omit |-> omit, files |-> <<>>])
-    /\ UNCHANGED <<shape, limit, raw, memo, ok>>
+    /\ UNCHANGED <<shape, limit, word, raw, memo, ok>>
 
 (* template = self._env.get_template(name): compiled on first use in this environment                      *)
 Compile ==
@@ -130,7 +151,7 @@ Compile ==
             ELSE /\ tplc' = [c |-> TRUE, f |-> FALSE, v |-> <<>>]
                  /\ UNCHANGED uniq
     /\ pc' = "render"
-    /\ UNCHANGED <<shape, limit, lim, modv, depc, run, last, nruns, cur, raw, memo, ok, hist>>
+    /\ UNCHANGED <<shape, limit, word, lim, modv, depc, unch, run, last, nruns, cur, raw, memo, ok, hist>>
 
 (* UniqueNameGenerator.reset(); then the template body runs top to bottom                                  *)
 Render ==
@@ -147,6 +168,8 @@ Render ==
            k    == EqKey(run.d, t)
            hit  == ~IdentityDepKey /\ k \in DOMAIN depc
            deps == IF hit THEN depc[k] ELSE Deps(run.d)[t]
+           nreq == shape.nam /\ t = 1                       \* {{ field | id }}: token type "any"
+           nch  == IF ~FullStropKey /\ word \in unch THEN FALSE ELSE Changed(word, "any")
            incl == IF shape.inc
                    THEN [i \in 1..Cardinality(deps) |-> <<"I", SortedSeq(deps)[i]>>] \o (IF run.omit THEN <<>> ELSE << <<"S">> >>)
                    ELSE <<>>
@@ -154,6 +177,7 @@ Render ==
                     \o [i \in 1..shape.lit |-> <<"L", litv[i]>>]
                     \o [i \in 1..shape.dyn |-> <<"D", dynv[i]>>]
                     \o (IF shape.mod THEN << <<"M", mv, n3>> >> ELSE <<>>)
+                    \o (IF nreq THEN << <<"N", word, nch>> >> ELSE <<>>)
                     \o incl
                     \o Rep(<<"E">>, shape.trail)
           /\ uniq' = [init |-> TRUE, n |-> n4]
@@ -161,8 +185,9 @@ Render ==
           /\ depc' = IF shape.inc /\ ~IdentityDepKey /\ ~hit
                      THEN [x \in (DOMAIN depc) \cup {k} |-> IF x = k THEN Deps(run.d)[t] ELSE depc[x]]
                      ELSE depc
+          /\ unch' = IF nreq /\ ~FullStropKey /\ ~nch THEN unch \cup {word} ELSE unch
     /\ pc' = "post"
-    /\ UNCHANGED <<shape, limit, lim, tplc, run, last, nruns, cur, memo, ok, hist>>
+    /\ UNCHANGED <<shape, limit, word, lim, tplc, run, last, nruns, cur, memo, ok, hist>>
 
 (* _generate_with_line_buffer through the shared LimitEmptyLines object, write, record                      *)
 Post ==
@@ -179,7 +204,7 @@ Post ==
        THEN run' = Idle /\ pc' = "idle" /\ cur' = 0
        ELSE run' = [run EXCEPT !.ord = Tail(@)] /\ pc' = "compile" /\ cur' = run.ord[2]
     /\ raw' = <<>>
-    /\ UNCHANGED <<shape, limit, uniq, tplc, modv, depc, last, nruns>>
+    /\ UNCHANGED <<shape, limit, word, uniq, tplc, modv, depc, unch, last, nruns>>
 
 (* A history ends when the property has been violated (the violating state is kept as a terminal state so    *)
 (* that EmitBad can print it).                                                                              *)
@@ -207,8 +232,8 @@ LimitRespected == limit > 0 => \A k \in DOMAIN memo : MaxERun(memo[k], 1, 0, 0) 
 OwnLineKept == \A k \in DOMAIN memo : \E i \in 1..Len(memo[k]) : memo[k][i] = <<"T", k[1]>>
 
 (* ---- case emission (spec -> code): one record per complete history ----                                  *)
-Emit == (pc = "idle" /\ nruns = MaxRuns) => PrintT(ToJson([shape |-> shape, limit |-> limit, runs |-> hist]))
+Emit == (pc = "idle" /\ nruns = MaxRuns) => PrintT(ToJson([shape |-> shape, limit |-> limit, word |-> word, runs |-> hist]))
 
 (* ---- negative controls: print every violating history (a predicted defect, replayed against the real code) *)
-EmitBad == ok \/ PrintT(ToJson([shape |-> shape, limit |-> limit, runs |-> hist]))
+EmitBad == ok \/ PrintT(ToJson([shape |-> shape, limit |-> limit, word |-> word, runs |-> hist]))
 =============================================================================
